@@ -720,3 +720,39 @@ def r20j(model: Model, rr: RuleResult):
         rr.ok("write_font.main hands the parsed glyph map to _inputs as it is")
     else:
         rr.bad_shape(fi, ins[0], "the glyph mappings given to _inputs do not come from glyphmap.parse_csv", construct="write_font.main: glyph map source")
+
+
+@RULES.rule("C20", "R20k", "a parameter added to a function is used by it (an option threaded through call chains is not dropped half way)", floor=1)
+def r20k(model: Model, rr: RuleResult):
+    """Threading a new option through several functions is the usual way a feature reaches the code that acts on it; the usual slip is one link that accepts
+    the parameter and never reads it, so the default applies there whatever the caller asked for.  For every function of the reference tree whose parameter list
+    grew, each added parameter must be read in the body (passed on, tested or stored)."""
+    import json
+    from ..normalize import REF_FILE
+    ref = json.loads(REF_FILE.read_text())
+    n = grown = 0
+    for mname, mod in sorted(model.modules.items()):
+        for fi in mod.functions.values():
+            if isinstance(fi.node, ast.Lambda):
+                continue
+            entry = ref.get(f"{mname}:{fi.qualname}")
+            if not entry:
+                continue
+            n += 1
+            old = {p_.lstrip("*") for p_ in entry.get("params", [])}
+            cur = [p_ for p_ in fi.params]
+            added = [p_ for p_ in cur if p_ not in old]
+            if not added or len(cur) <= len(old):
+                continue  # renamed parameters are matched by the normal form; only a longer list counts
+            grown += 1
+            loads = {x.id for x in ast.walk(fi.node) if isinstance(x, ast.Name) and isinstance(x.ctx, ast.Load)}
+            abstract = all(isinstance(st, (ast.Pass, ast.Raise)) or (isinstance(st, ast.Expr) and isinstance(st.value, ast.Constant)) for st in fi.body)
+            for p_ in added:
+                if p_ in loads or abstract or p_.startswith("_"):
+                    rr.ok(f"{mname}.{fi.qualname}: new parameter {p_} is read")
+                else:
+                    rr.bad(fi, fi.node, f"{mname}.{fi.qualname} gained the parameter `{p_}` but never reads it: callers that pass it get the behaviour of the default "
+                           f"(the option is dropped at this link of the call chain)", construct=f"{fi.qualname}: added parameter {p_} unused")
+    if n < 300:
+        raise AnalysisError(f"R20k: only {n} reference functions matched")
+    rr.ok(f"{n} functions compared with their reference signature; {grown} with a longer parameter list")
